@@ -134,11 +134,20 @@ def cases(tier, inst):
             for kinds in itertools.product(("x", "y", "xy"), repeat=n):
                 if n == 4 and hash((sh, kinds)) % 3:
                     continue
-                for base_binds in (True, False):
+                for base_binds in (True, False, "after"):
                     if not base_binds and kinds[0] != "xy":
                         continue         # the base condition itself names both variables, or an explicit comparison does
+                    if base_binds == "after" and any(k_ != "x" for k_ in kinds[1:]):
+                        # the false rows of such a base bind x only; a branch over y below would INTRODUCE y, and whether
+                        # a node that introduces a variable fired is read per row or per x (same open question as for the
+                        # z-join family): only branches over x here, y is reached through the conclusions alone
+                        continue
                     for caching in ((True, False) if n <= 2 or tier == "thorough" else (True,)):
                         yield ("kjoin", node, kinds, base_binds, caching)
+                        # conclusions that name fewer variables than the branch conditions use
+                        for pattern in ("xalt", "x"):
+                            if n >= 2 and (caching or tier == "thorough"):
+                                yield ("kjoin", node, kinds, base_binds, pattern, caching)
     # branches whose condition joins a further variable z (several z per x, taking different nested branches)
     for n in range(2, (4 if tier == "quick" else 5) + 1):
         for sh in binary_shapes(n):
@@ -166,20 +175,40 @@ def kval(kind, j, xv, yv):
     return 1 if xv[j] == yv[j] else 2
 
 
-def build_ktree(node, kinds, x, y, views, inst):
+def concludes_both(pattern, i, is_alternative):
+    """which variables the conclusion of node i names: "xy" all of them; "xalt" only alternatives name y too (the base and
+    the refinements conclude on x alone); "x" none of them names y"""
+    return pattern == "xy" or (pattern == "xalt" and is_alternative)
+
+
+def build_ktree(node, kinds, x, y, views, inst, pattern="xy", is_alternative=False):
     i, ref, alt = node
-    Add(views, W.Made(a=x, b=inst.v(i + 1), c=y))
+    Add(views, W.Made(a=x, b=inst.v(i + 1), c=y) if concludes_both(pattern, i, is_alternative) else W.Made(a=x, b=inst.v(i + 1)))
     if ref is not None:
         with refinement(kcond(kinds[ref[0]], ref[0], x, y, inst)):
-            build_ktree(ref, kinds, x, y, views, inst)
+            build_ktree(ref, kinds, x, y, views, inst, pattern, is_alternative)
     if alt is not None:
         with alternative(kcond(kinds[alt[0]], alt[0], x, y, inst)):
-            build_ktree(alt, kinds, x, y, views, inst)
+            build_ktree(alt, kinds, x, y, views, inst, pattern, True)
+
+
+def alternative_nodes(node, is_alternative=False, out=None):
+    out = {} if out is None else out
+    if node is not None:
+        out[node[0]] = is_alternative
+        alternative_nodes(node[1], is_alternative, out)
+        alternative_nodes(node[2], True, out)
+    return out
 
 
 def kjoin_make_and_eval_twice(case, inst):
-    _, node, kinds, base_binds, caching = case
+    if len(case) == 5:
+        _, node, kinds, base_binds, caching = case
+        pattern = "xy"
+    else:
+        _, node, kinds, base_binds, pattern, caching = case
     n = size(node)
+    is_alt = alternative_nodes(node)
 
     def body():
         vals = list(itertools.product((1, 2), repeat=n))
@@ -190,25 +219,32 @@ def kjoin_make_and_eval_twice(case, inst):
             for yo, yv in zip(ys, vals):
                 val = tuple(kval(kinds[j], j, xv, yv) for j in range(n))
                 for tag in rdr(node, val):
-                    exp.append(repr(("made", "Made", Q.norm(xo), Q.norm(inst.v(tag + 1)), Q.norm(yo))))
+                    both = concludes_both(pattern, tag, is_alt[tag])
+                    exp.append(repr(("made", "Made", Q.norm(xo), Q.norm(inst.v(tag + 1)), Q.norm(yo if both else None))))
+        if pattern != "xy":
+            exp = sorted(set(exp))     # a conclusion that names x alone: how often it is drawn per x is not prescribed
         exp.sort()
         try:
             with symbolic_mode():
                 x, y = let(W.Item, xs), let(W.Item, ys)
                 views = let(W.View)
                 c0 = kcond(kinds[0], 0, x, y, inst)
-                if base_binds:
+                if base_binds == "after":
+                    # the node's own condition first, then a comparison naming both variables (true for every pair)
+                    c0 = and_(c0, x.p == y.p)
+                elif base_binds:
                     # the base names both variables (a comparison that is true for every pair), then its own condition
                     c0 = and_(x.p == y.p, c0)
                 q = an(entity(views, c0))
             with rule_mode(q):
-                build_ktree(node, kinds, x, y, views, inst)
+                build_ktree(node, kinds, x, y, views, inst, pattern)
         except Exception as e:
             return [("build",) + exc_obs(e)], exp
         out = []
         for _ in range(2):
             try:
-                out.append(sorted(repr(Q.norm(r)) for r in q.evaluate()))
+                rows = sorted(repr(Q.norm(r)) for r in q.evaluate())
+                out.append(sorted(set(rows)) if pattern != "xy" else rows)
             except Exception as e:
                 out.append(exc_obs(e))
         return out, exp
@@ -426,10 +462,11 @@ def run_case(case, inst):
         out, exp = join_make_and_eval_twice(case, inst)
         order, base, form = "ra", "zjoin:" + "".join(kinds), "an"
     elif case[0] == "kjoin":
-        _, node, kinds, base_binds, caching = case
+        node, kinds, base_binds, caching = case[1], case[2], case[3], case[-1]
         n = size(node)
         out, exp = kjoin_make_and_eval_twice(case, inst)
-        order, base, form = "ra", "kjoin:" + "/".join(kinds) + ("+bind" if base_binds else ""), "an"
+        order, base, form = "ra", "kjoin:" + "/".join(kinds) + ("+bind" if base_binds else "") + (
+            "+concl=" + case[4] if len(case) == 6 else ""), "an"
     else:
         node, order, base, form, caching = case
         n = size(node)
@@ -505,14 +542,18 @@ def show(node, inst, depth=1, ycond="", order="ra", inner=None):
 
 def describe(case, inst):
     if case[0] == "kjoin":
-        _, node, kinds, base_binds, caching = case
+        node, kinds, base_binds, caching = case[1], case[2], case[3], case[-1]
+        pattern = case[4] if len(case) == 6 else "xy"
         return (f"{'enable' if caching else 'disable'}_caching()\n# rule tree {node} (node = (index, refinement, alternative)); "
                 f"node kinds {kinds}: 'x' = condition x.t[i] == 1, 'y' = y.t[i] == 1, 'xy' = x.t[i] == y.t[i];\n"
                 "# xs, ys = one Item(p=1, t=val) per valuation in {1,2}^n each; q = an(entity(views := let(View), "
-                + ("and_(x.p == y.p, <condition of node 0>)" if base_binds else "<condition of node 0>") + "));\n"
+                + ("and_(<condition of node 0>, x.p == y.p)" if base_binds == "after" else
+                   ("and_(x.p == y.p, <condition of node 0>)" if base_binds else "<condition of node 0>")) + "));\n"
                 "# nested `with refinement(<cond>)` / `with alternative(<cond>)` blocks as in the tree, conclusions "
-                "Add(views, Made(a=x, b=i+1, c=y))\n"
-                "rows1 = list(q.evaluate()); rows2 = list(q.evaluate())   # expected: ripple-down semantics per pair (x, y)")
+                "Add(views, Made(a=x, b=i+1, c=y))" + {"xy": "", "xalt": "; base and refinements conclude Made(a=x, b=i+1) only",
+                                                      "x": "; every conclusion is Made(a=x, b=i+1) only"}[pattern] + "\n"
+                "rows1 = list(q.evaluate()); rows2 = list(q.evaluate())   # expected: ripple-down semantics per pair (x, y)"
+                + (" (compared as sets)" if pattern != "xy" else ""))
     if case[0] == "zjoin":
         _, node, kinds, caching = case
         return (f"{'enable' if caching else 'disable'}_caching()\n# rule tree {node} (node = (index, refinement, alternative)); "
